@@ -89,10 +89,11 @@ class C02(Prop):
     def enumerated(self, tier):
         out = []
         trailers = [[], [[0, ""]], [[0, "# c"]], [[0, ""], [0, "# c"]], [[0, "# c"], [0, ""]]]
-        for nc in (1, 2, 3):
-            for nr in (1, 2, 3):
+        big = tier == "thorough"
+        for nc in ((1, 2, 3, 4, 7) if big else (1, 2, 3)):
+            for nr in ((1, 2, 3, 4, 21, 22) if big else (1, 2, 3)):
                 for t in trailers:
-                    for tail in ([], [TAILS[0]]):
+                    for tail in (([], [TAILS[0]], [TAILS[1]], [TAILS[2]], [TAILS[0], TAILS[1]]) if big else ([], [TAILS[0]])):
                         for fn in (True, False):
                             for nl in ("\n", "\r\n"):
                                 rows = [{"cells": ["%d" % (100 + i)] + ["%d.5" % (i * 10 + j) for j in range(1, nc)],
